@@ -119,7 +119,7 @@ class CovergroupModel(FieldCompositeModel):
             total_weight = 0
             # Coverpoints and crosses contribute according to their weight
             for cp in self.coverpoint_l:
-                self.coverage += cp.get_coverage() * cp.options.weight
+                self.coverage += cp.get_inst_coverage() * cp.options.weight
                 total_weight += cp.options.weight
             for cp in self.cross_l:
                 self.coverage += cp.get_coverage() * cp.options.weight
